@@ -130,6 +130,11 @@ class Inventory:
             if s.status == "open" and s.kind != "precond":
                 by_fn.setdefault(s.fn, []).append(s)
         for g, open_sites in by_fn.items():
+            if self.facts.fns.get(g, {}).get("kind") == "Closure" and len(self.cg.bodies[g].blocks) <= 80:
+                contexts = self._closure_contexts(g, reach)
+                if contexts:
+                    self._retry_under(g, open_sites, contexts, "each of the %d places its closure is applied (elements of a constant array / range)" % len(contexts))
+                continue
             if not self.liftable(g, roots) or len(self.cg.bodies[g].blocks) > 80:
                 continue
             contexts = []
@@ -168,6 +173,71 @@ class Inventory:
                 if id(s) not in failing:
                     s.status = "proven"
                     s.how = "proved under the argument intervals of each of its %d calling contexts" % len(contexts)
+
+    def _retry_under(self, g, open_sites, contexts, how):
+        failing = set()
+        for ctx in contexts:
+            sub = Analysis(self.cg.bodies[g], entry_iv=dict(ctx), adts=self.facts.adts, summaries=self.summaries).run()
+            for s in open_sites:
+                if s.block not in sub.inn:
+                    continue
+                probe = Site(s.fn, s.block, s.kind, s.detail, s.ops, s.line, s.mac, s.term)
+                st = sub.state_at_term(s.block)
+                if s.kind in ("assert", "ubcheck"):
+                    self._assert_goals(sub, st, s.block, probe)
+                else:
+                    self._call_goals(sub, st, s.block, probe)
+                ok = probe.status == "proven" or (probe.goals is not None and all(self._prove_goal(sub, st, g2) for g2 in probe.goals))
+                if not ok:
+                    failing.add(id(s))
+        for s in open_sites:
+            if id(s) not in failing:
+                s.status = "proven"
+                s.how = "proved under the argument intervals of " + how
+
+    def _closure_contexts(self, g, reach):
+        """a closure handed to `[..].map(f)` or to an iterator adaptor over a constant range: its parameter ranges over the
+        elements.  -> set of entry contexts, or None when some use of the closure is not of that kind"""
+        parent = g.rsplit("::{closure#", 1)[0]
+        an = self.analyses.get(parent)
+        body = self.cg.bodies.get(parent)
+        if an is None or body is None:
+            return None
+        clos = set()
+        for blk in body.blocks:
+            for st_ in blk["stmts"]:
+                if st_["k"] == "assign" and st_["r"].get("k") == "agg" and st_["r"].get("ak") == "closure" and st_["r"].get("path") == g \
+                        and not st_["p"]["p"]:
+                    clos.add(st_["p"]["l"])
+        if not clos:
+            return None
+        contexts = set()
+        for bi, t in body.calls():
+            idx = [i for i, a in enumerate(t["args"]) if op_place(a) is not None and not op_place(a)["p"] and op_place(a)["l"] in clos]
+            if not idx:
+                continue
+            if bi not in an.inn or idx != [1]:
+                return None
+            st = an.state_at_term(bi)
+            name = callee_name(t) or ""
+            coll = op_place(t["args"][0])
+            ck = key_of(coll) if coll is not None else None
+            iv = None
+            if re.search(r"array::<impl \[T; N\]>::map$", name) and ck:
+                d = an.single.get(ck)
+                if d and d[2]["k"] == "agg" and d[2].get("ak") == "array":
+                    ivs = [an.op_iv(st, o) for o in d[2]["ops"]]
+                    if ivs and all(x is not None for x in ivs):
+                        iv = (min(x[0] for x in ivs), max(x[1] for x in ivs))
+            elif re.search(r"iter::Iterator::(map|any|all|for_each|filter|position|find|find_map|filter_map|take_while|skip_while|inspect|fold)$", name) and ck:
+                ty = an.tys.get(ck, "")
+                s_iv, e_iv = st.iv.get(ck + ".start"), st.iv.get(ck + ".end")
+                if s_iv and e_iv and re.search(r"ops::Range(Inclusive)?<", ty):
+                    iv = (s_iv[0], e_iv[1] if "RangeInclusive" in ty else e_iv[1] - 1)
+            if iv is None or iv[0] > iv[1]:
+                return None
+            contexts.add((("_2", iv),))
+        return contexts or None
 
     def _bottom_up(self, reach):
         order, seen, onstack = [], set(), set()
